@@ -17,6 +17,32 @@ Section G.
     intros Hk Hh. destruct (C09_complete K laws O C sk Hk Hh) as (p & Hp & Hv).
     exists p. rewrite r_sk_proof_of_possession, r_pop_wrapper_verify, Hp, Hv. split; reflexivity.
   Qed.
+  (* C09, exactness of the translated verifier *)
+  Theorem generated_pop_verify_exact (p : pt K Gsig) (pk : pt K Gpk) :
+    gen_ProofOfPossession_verify E p pk = Val (Ok tt)
+    <-> dl p <> f0 K /\ dl pk <> f0 K /\ dl p = fmul K (dl pk) (Hpop K O C pk).
+  Proof.
+    rewrite r_pop_wrapper_verify. rewrite <- (C09_exact K laws O C p pk).
+    split; [intros H; injection H; auto | intros ->; reflexivity].
+  Qed.
+
+  (* C09: any change to the proof is rejected by the translated verifier *)
+  Theorem generated_pop_any_change_rejected (sk : car K) (p p' : pt K Gsig) :
+    gen_SecretKey_proof_of_possession E sk = Val (Ok p) -> p' <> p ->
+    gen_ProofOfPossession_verify E p' (public_key sk) <> Val (Ok tt).
+  Proof.
+    rewrite r_sk_proof_of_possession, r_pop_wrapper_verify. intros Hp Hne Hv.
+    injection Hp as Hp. injection Hv as Hv.
+    exact (C09_any_change_rejected K laws O C sk p p' Hp Hne Hv).
+  Qed.
+
+  (* C09: the zero key is refused by the translated prover *)
+  Theorem generated_pop_zero_key_refused :
+    gen_SecretKey_proof_of_possession E (f0 K) = Val (Err SigningError).
+  Proof. rewrite r_sk_proof_of_possession, (C09_zero_key_refused K laws O C). reflexivity. Qed.
 End G.
 
 Print Assumptions generated_pop_verifies.
+Print Assumptions generated_pop_verify_exact.
+Print Assumptions generated_pop_any_change_rejected.
+Print Assumptions generated_pop_zero_key_refused.
